@@ -518,9 +518,17 @@ class Gen:
         r = self.r
         if self.closed:
             return
+        hold = r.random() < 0.3
+        if hold:
+            # the application has not read its exchange channels when the client is closed: the closing notice must still fit
+            self.emit("exhold")
+            for _ in range(r.choice([1, 2])):
+                self.publish()
         self.emit(r.choice(["close", "close", "disconnect"]))
         if not self.reader_out:
             self.emit("rs")
+        if hold:
+            self.emit("rs", "exread")
         self.closed = True
         self.link = "closed"
         self.subs, self.unsubs, self.ping, self.waiter = [], [], None, None
